@@ -716,6 +716,10 @@ impl<'a> Interp<'a> {
                 format!("{}: charged total {} != sum of per-entry charges {}", what, snap.used, sum),
             );
         }
+        let api_len = self.sut.len();
+        if api_len != snap.entries.len() {
+            self.fail("len_eq_entries", P_C06, format!("{}: Cache::len() {} != resident entries {}", what, api_len, snap.entries.len()));
+        }
         if snap.len != snap.entries.len() {
             self.fail(
                 "len_eq_entries",
